@@ -192,7 +192,7 @@ fn run_scenario(sc: &Value, idx: usize, bin: &Path, scratch: &Path, local: bool)
     let fixture_root = if local { d.join("proj/fixture app") } else { d.join("proj") };
     let fixture_before = fsnap::snapshot(&fixture_root);
     let mut command = Command::new(bin.join("scenario"));
-    command.arg(d.join("scenario.json")).current_dir(d.join("decoy cwd")).env_clear()
+    command.arg(d.join("scenario.json")).current_dir(d.join("decoy cwd")).env_clear().envs(std::env::var_os("LLVM_PROFILE_FILE").map(|v| ("LLVM_PROFILE_FILE", v)))
         .env("PATH", format!("{}:/usr/bin:/bin", d.join("bin").display())).env("STANDIN_STATE", d.join("state"))
         .env("TMPDIR", d.join("tmp")).env("CARGO_MANIFEST_DIR", d.join("proj")).env("HOME", &d);
     if local {
